@@ -1149,6 +1149,17 @@ fn hist_main(args: &[String]) {
             report(i, "after-large-call", &got, &base[i]);
         }
     }
+    // the same operands in single precision immediately before: nothing computed for one coordinate type may
+    // leak into the answer for the other (a cache keyed by coordinate values only, seed C12-7)
+    for i in 0..reqs.len() {
+        if let Some(rest) = reqs[i].strip_prefix("BOOL f64 ") {
+            let r32 = format!("BOOL f32 {}", rest);
+            let _ = dispatch(&r32, &empty);
+            let got = dispatch(&reqs[i], &empty);
+            executions += 2;
+            report(i, "after-the-same-operands-in-f32", &got, &base[i]);
+        }
+    }
     // a large call, 254 small calls, the large call again (state keyed by a small per-thread call counter
     // would wrap around here); "large" / "small" by request length
     if !reqs.is_empty() {
